@@ -189,6 +189,14 @@ func (h *memHandle) WriteAt(b []byte, off int64) (int, error) {
 	if err != nil {
 		e["err"] = err.Error()
 	}
+	if t := p.truth(h.s.id); t != nil {
+		// storage truth after this write: is every touched piece now entirely correct on "disk"?
+		pg := make([]bool, len(pcs))
+		for i, pc := range pcs {
+			pg[i] = h.s.PieceClass(t, pc) == "good"
+		}
+		e["pgood"] = pg
+	}
 	p.T.Emit(e)
 	_ = p.hook("exit", "write", h.s.id, h.name, off, len(b))
 	return n, err
